@@ -502,6 +502,16 @@ def rand_file(rng, p_bad=0.2, maxlines=8):
         for _ in range(rng.choice([1, 2])):
             nm = rng.choice(pool)
             lines.insert(rng.randint(0, len(lines)), rand_addr_text(rng) + ws(rng) + nm + rng.choice(["", ".", " " + nm.upper()]))
+    # X, then a conflicting Y for the same name and family, then a byte-identical repeat of X (the repeat must win)
+    if pool and rng.random() < 0.25:
+        nm = rng.choice(pool)
+        fam4 = rng.random() < 0.6
+        def addr():
+            return ("10.%d.%d.%d" % (rng.randint(0, 255), rng.randint(0, 255), rng.randint(1, 254))) if fam4 else ("fd00::%x" % rng.randint(1, 0xFFFF))
+        x = addr() + ws(rng) + nm
+        y = addr() + ws(rng) + nm
+        pos = rng.randint(0, len(lines))
+        lines[pos:pos] = [x, y, x]
     out = ""
     for i, l in enumerate(lines):
         out += l
@@ -511,6 +521,8 @@ def rand_file(rng, p_bad=0.2, maxlines=8):
 
 
 CORPUS = [
+    "10.0.0.1 a.lan\n10.0.0.2 a.lan\n10.0.0.1 a.lan\n",      # a later identical line still replaces the one between
+    "fd00::1 a.lan\nfd00::2 a.lan\nfd00::1 a.lan",
     "zzz \n1.2.3.4 foo",                  # known finding: malformed address-only line followed by a space
     "1.2.3.4 foo#c",                      # F6: the name ended by '#' is kept
     "1.2.3.4 foo #é",                     # F6b: comment text may be anything
